@@ -16,7 +16,7 @@ struct EvMeta { kind: &'static str, author: usize, epoch_hint: u64 }
 struct Gen {
     r: Rng, n: usize, admin_mask: u64, next_ev: u64, next_msg: u64,
     evs: BTreeMap<u64, EvMeta>, regime_causal: bool, immediate: bool,
-    client_epoch: Vec<u64>, delivered: BTreeSet<u64>, left: Option<usize>, adv: u32,
+    client_epoch: Vec<u64>, delivered: BTreeSet<u64>, left: Option<usize>, adv: u32, twin: bool, removed: bool,
 }
 
 impl Gen {
@@ -28,6 +28,17 @@ impl Gen {
         let pending: Vec<(usize, u64)> = (0..self.n).filter_map(|c| w.pending_of(c).map(|e| (c, e))).collect();
         if k < 14 && !pending.iter().any(|(c, _)| *c == m) {
             let is_admin = self.admin_mask & (1 << m) != 0;
+            // an admin removes another user (all of its devices) through MDK::remove_members
+            if is_admin && !self.removed && self.n > 3 && self.r.chance(1, 5) {
+                let same = |a: usize, b: usize| a == b || (self.twin && a >= 2 && b >= 2);
+                let cands: Vec<usize> = (1..self.n).filter(|&v| !same(v, m)).collect();
+                if !cands.is_empty() {
+                    let v = *self.r.pick(&cands);
+                    let ev = self.next_ev; self.next_ev += 1; self.removed = true;
+                    self.evs.insert(ev, EvMeta { kind: "commit", author: m, epoch_hint: self.client_epoch[m] });
+                    return format!("PR COMMIT {m} rv{v} {ev} {}", self.ts());
+                }
+            }
             let kind = if is_admin && self.r.chance(1, 3) { "rn" } else { "su" };
             let ev = self.next_ev; self.next_ev += 1;
             self.evs.insert(ev, EvMeta { kind: "commit", author: m, epoch_hint: self.client_epoch[m] });
@@ -41,7 +52,7 @@ impl Gen {
         }
         // clear_pending_commit is for commits whose publication failed: only unpublished ones are cleared, and they are never delivered
         if k < 24 { if let Some((m, ev)) = pending.iter().find(|(_, e)| !self.delivered.contains(e)).cloned() { self.evs.remove(&ev); return format!("PR CLEAR {m}"); } }
-        if k < 26 && self.left.is_none() && self.n > 3 && m != 0 && self.r.chance(1, 4) {
+        if k < 26 && self.left.is_none() && self.n > 3 && m != 0 && !(self.twin && m >= 2) && self.r.chance(1, 4) {
             let ev = self.next_ev; self.next_ev += 1; self.left = Some(m);
             self.evs.insert(ev, EvMeta { kind: "prop", author: m, epoch_hint: self.client_epoch[m] });
             return format!("PR LEAVE {m} {ev} {}", self.ts());
@@ -51,7 +62,8 @@ impl Gen {
             let victim = (m + 1 + self.r.below(self.n as u64 - 1) as usize) % self.n;
             let ev = self.next_ev; self.next_ev += 1; self.adv += 1;
             self.evs.insert(ev, EvMeta { kind: "commit", author: m, epoch_hint: self.client_epoch[m] });
-            return format!("PR ADV {m} rm {victim} {ev} {}", self.ts());
+            let akind = if self.twin && victim >= 2 { "ga" } else { *self.r.pick(&["rm", "rm", "ga", "gn"]) };
+            return format!("PR ADV {m} {akind} {victim} {ev} {}", self.ts());
         }
         if w.reopen.is_some() && k >= 96 { return format!("PR RESTART {m}"); }
         if k < 28 {
@@ -115,7 +127,7 @@ fn run_world<S: MdkStorageProvider, F: Fn(usize) -> S>(run: &mut Run, lines_in: 
     if let Some(lines) = lines_in {
         for l in lines {
             let t: Vec<&str> = l.split(' ').collect();
-            if t[1] == "RESET" { world_no.set(world_no.get() + 1); world = Some(World::new(t[2].parse().unwrap(), t[3].parse().unwrap(), t[4].parse().unwrap(), &mk));
+            if t[1] == "RESET" { world_no.set(world_no.get() + 1); world = Some(World::new_twin(t[2].parse().unwrap(), t[3].parse().unwrap(), t[4].parse().unwrap(), t.get(5) == Some(&"1"), &mk));
                 if let Some(f) = reopen_factory.as_ref() { let id = world_no.get(); world.as_mut().unwrap().reopen = Some(f(id.wrapping_sub(1000))); } push(run, "RESET", false, l.clone(), "RESET".into()); continue; }
             let (line, fp) = world.as_mut().unwrap().exec(&l);
             push(run, "replay", true, line, fp);
@@ -134,7 +146,7 @@ fn run_world<S: MdkStorageProvider, F: Fn(usize) -> S>(run: &mut Run, lines_in: 
                 flush(run, &mut cur);
                 let (n, mask, ret): (usize, u64, usize) = (t[2].parse().unwrap(), t[3].parse().unwrap(), t[4].parse().unwrap());
                 world_no.set(world_no.get() + 1);
-                let w: World<S> = World::new(n, mask, ret, &mk);
+                let w: World<S> = World::new_twin(n, mask, ret, t.get(5) == Some(&"1"), &mk);
                 run.case("RESET", false, l.to_string(), "RESET".into());
                 cur = Some((w, vec![l.to_string()], Truth { retention: ret as u64, visited: vec![BTreeSet::from([0u64]); n], offered: vec![BTreeSet::new(); n], ..Default::default() }, BTreeSet::new()));
                 continue;
@@ -150,21 +162,65 @@ fn run_world<S: MdkStorageProvider, F: Fn(usize) -> S>(run: &mut Run, lines_in: 
     }
     for h in 0..nhist {
         world_no.set(1000 + h);
-        let n = 3 + r.below(2) as usize;
-        let admin_mask = 1 | (r.below(1 << n) & !1) ;
+        let removal_script = h % 5 == 2;
+        let n = if removal_script { 4 } else { 3 + r.below(2) as usize };
+        let mut admin_mask = 1 | (r.below(1 << n) & !1) ;
         let retention = *r.pick(&[5usize, 5, 5, 5, 5, 2, 1, 0]);
+        // one history in three of the four-member worlds has a two-device user (clients 2 and 3 share one identity)
+        let twin = n == 4 && (removal_script || r.chance(1, 3));
+        if twin { admin_mask = (admin_mask & !0b1000) | ((admin_mask & 0b100) << 1); }
         let mut g = Gen { r: r.fork(), n, admin_mask, next_ev: 0, next_msg: 1, evs: BTreeMap::new(),
-                          regime_causal: h % 3 != 2, immediate: h % 4 == 3, client_epoch: vec![1; n], delivered: BTreeSet::new(), left: None, adv: 0 };
-        let mut w: World<S> = World::new(n, admin_mask, retention, &mk);
+                          regime_causal: h % 3 != 2, immediate: h % 4 == 3, client_epoch: vec![1; n], delivered: BTreeSet::new(), left: None, adv: 0, twin, removed: false };
+        let mut w: World<S> = World::new_twin(n, admin_mask, retention, twin, &mk);
         if let Some(f) = reopen_factory.as_ref() { w.reopen = Some(f(h)); }
-        let reset = format!("PR RESET {n} {admin_mask} {retention}");
+        let reset = format!("PR RESET {n} {admin_mask} {retention}{}", if twin { " 1" } else { "" });
         let mut seq: Vec<String> = vec![reset.clone()];
         push(run, "RESET", false, reset, "RESET".into());
         let nsteps = steps / 2 + g.r.below(steps);
         let mut rolled = false;
         let mut truth = Truth { retention: retention as u64, visited: vec![BTreeSet::from([0u64]); n], offered: vec![BTreeSet::new(); n], ..Default::default() };
+        // every fifth history starts with a scripted deep fork: member 0 applies a chain of d of its own commits (by echo, so
+        // with snapshots) while member 1's application message and competing commit of the first epoch are still in flight;
+        // d straddles the exporter-secret lookback and the snapshot retention (both 5 by default)
+        let mut script: Vec<String> = vec![];
+        if h % 5 == 4 {
+            let d = 3 + g.r.below(4);
+            let (e_app, e_comp) = (g.next_ev, g.next_ev + 1); g.next_ev += 2;
+            let msg = g.next_msg; g.next_msg += 1;
+            g.evs.insert(e_app, EvMeta { kind: "app", author: 1, epoch_hint: 1 });
+            g.evs.insert(e_comp, EvMeta { kind: "commit", author: 1, epoch_hint: 1 });
+            script.push(format!("PR SEND 1 {e_app} 100 {msg}"));
+            script.push(format!("PR COMMIT 1 su {e_comp} {}", if g.r.chance(2, 3) { 99 } else { 104 }));
+            for i in 0..d {
+                let ev = g.next_ev; g.next_ev += 1;
+                g.evs.insert(ev, EvMeta { kind: "commit", author: 0, epoch_hint: 1 + i });
+                script.push(format!("PR COMMIT 0 su {ev} {}", 100 + g.r.below(4)));
+                script.push(format!("PR DELIVER 0 {ev}"));
+                g.delivered.insert(ev);
+                if g.r.chance(1, 2) { script.push(format!("PR DELIVER 2 {ev}")); }
+            }
+            if g.r.chance(1, 2) { script.push(format!("PR DELIVER 0 {e_app}")); g.delivered.insert(e_app); }
+            script.push(format!("PR DELIVER 0 {e_comp}")); g.delivered.insert(e_comp);
+            script.reverse();
+        }
+        // every fifth history (another residue) removes a two-device user right away and then lets the remaining members talk
+        if removal_script {
+            let (e_rm, e_app) = (g.next_ev, g.next_ev + 1); g.next_ev += 2;
+            let msg = g.next_msg; g.next_msg += 1;
+            g.evs.insert(e_rm, EvMeta { kind: "commit", author: 0, epoch_hint: 1 });
+            g.evs.insert(e_app, EvMeta { kind: "app", author: 0, epoch_hint: 2 });
+            g.removed = true;
+            let victim = 2 + g.r.below(2);
+            script.push(format!("PR COMMIT 0 rv{victim} {e_rm} 100"));
+            for c in [0usize, 1, 2, 3] { script.push(format!("PR DELIVER {c} {e_rm}")); }
+            g.delivered.insert(e_rm);
+            script.push(format!("PR SEND 0 {e_app} 101 {msg}"));
+            for c in [3usize, 2, 1] { script.push(format!("PR DELIVER {c} {e_app}")); }
+            g.delivered.insert(e_app);
+            script.reverse();
+        }
         for _ in 0..nsteps {
-            let l = g.next(&w);
+            let l = match script.pop() { Some(l) => l, None => g.next(&w) };
             let (line, fp) = step(&mut w, &l, &mut truth, run, backend, &seq);
             if fp == "skip" { continue; }
             // keep generator's view of epochs in step with reality (record epoch printed as ep=)
@@ -185,12 +241,13 @@ fn step<S: MdkStorageProvider>(w: &mut World<S>, l: &str, truth: &mut Truth, run
     let t: Vec<&str> = l.split(' ').collect();
     let m: usize = t[2].parse().unwrap_or(0);
     let before = if t[1] == "DELIVER" { Some(strip(&w.fingerprint(m, "-", None, None))) } else { None };
+    let pending_before = if t[1] == "DELIVER" { w.pending_of(m) } else { None };
     if t[1] == "DELIVER" {
         let ev: u64 = t[3].parse().unwrap();
         if let Some(info) = w.events.get(&ev) {
             if !truth.visited[m].contains(&info.state) || info.refs.iter().any(|p| !truth.offered[m].contains(p)) { truth.ahead.push((m, ev)); }
             if info.kind == "commit" && w.mls_epoch(m) > info.epoch + truth.retention { truth.beyond_retention = true; }
-            if info.kind == "app" && w.mls_epoch(m) != info.epoch { truth.late.insert((m, ev)); }
+            if info.kind == "app" && w.mls_epoch(m) != info.epoch && !truth.offered[m].contains(&ev) { truth.late.insert((m, ev)); }
             if info.kind == "prop" && w.mls_epoch(m) > info.epoch { truth.stale_proposal = true; }
             if info.kind == "commit" && truth.restarted.contains(&m) && w.mls_epoch(m) > info.epoch { truth.late_competitor_after_restart = true; }
             if info.kind == "commit" && info.author == m && info.epoch == w.mls_epoch(m) { if let Some(p) = w.pending_of(m) { if p != ev { truth.own_echo_other_pending = true; } } }
@@ -200,7 +257,7 @@ fn step<S: MdkStorageProvider>(w: &mut World<S>, l: &str, truth: &mut Truth, run
     let before_restart = if t[1] == "RESTART" { Some(strip(&w.fingerprint(m, "-", None, None))) } else { None };
     if t[1] == "SEND" && t.len() > 6 { truth.sendx.push((m, t[5].parse().unwrap(), t[6].parse().unwrap())); }
     let members_before = if t[1] == "DELIVER" { w.members_of(m) } else { vec![] };
-    let name_before = if t[1] == "DELIVER" { w.clients[m].mdk.get_group(&w.gid).ok().flatten().map(|g| g.name).unwrap_or_default() } else { String::new() };
+    let name_before = if t[1] == "DELIVER" { w.clients[m].mdk.get_group(&w.gid).ok().flatten().map(|g| format!("{} admins={:?}", g.name, g.admin_pubkeys.iter().filter_map(|pk| w.clients.iter().position(|x| x.keys.public_key() == *pk)).collect::<BTreeSet<_>>())).unwrap_or_default() } else { String::new() };
     let rb_before = if t[1] == "DELIVER" { w.clients[m].cb.0.lock().unwrap().len() } else { 0 };
     let leave_to_pending_admin = t[1] == "DELIVER" && w.events.get(&t[3].parse().unwrap()).map(|i| i.kind == "prop").unwrap_or(false)
         && w.admin_mask & (1 << m) != 0 && w.pending_of(m).is_some();
@@ -217,7 +274,7 @@ fn step<S: MdkStorageProvider>(w: &mut World<S>, l: &str, truth: &mut Truth, run
         let seqtxt = || seq.join(" || ") + " || " + &line;
         // C05: roster and group data change only as the effect of an authorised commit, and exactly as it says
         let members_after = w.members_of(m);
-        let name_after = w.clients[m].mdk.get_group(&w.gid).ok().flatten().map(|g| g.name).unwrap_or_default();
+        let name_after = w.clients[m].mdk.get_group(&w.gid).ok().flatten().map(|g| format!("{} admins={:?}", g.name, g.admin_pubkeys.iter().filter_map(|pk| w.clients.iter().position(|x| x.keys.public_key() == *pk)).collect::<BTreeSet<_>>())).unwrap_or_default();
         let active_after = fp.contains(" act=1 ");
         if active_after && (members_after != members_before || name_after != name_before) {
             let rolled = w.clients[m].cb.0.lock().unwrap().len() > rb_before;
@@ -237,6 +294,22 @@ fn step<S: MdkStorageProvider>(w: &mut World<S>, l: &str, truth: &mut Truth, run
                 }
             }
         }
+        // C05/C03: a removal commit applied here removes EVERY device of the removed identity
+        if let Some(i) = &info { if let Some(v) = i.ckind.strip_prefix("rv").and_then(|v| v.parse::<usize>().ok()) { if fp.starts_with("res=Commit") && fp.contains(&format!(" st={} ", ev + 1)) && active_after {
+            let vpk = w.clients[v].keys.public_key();
+            if w.clients[m].mdk.get_members(&w.gid).map(|ms| ms.contains(&vpk)).unwrap_or(false) {
+                for p in ["C05", "C03"] { run.oracle_fail(p, "", format!("[{backend}] member {m} applied the commit removing user {v} (event {ev}) but that identity is still a member of its group"), seqtxt()); }
+            }
+        } } }
+        // C03: nothing sent after a user was removed is readable by any of that user's devices
+        if let Some(i) = &info { if i.kind == "app" && fp.starts_with("res=App") && i.author != m {
+            let mut st = i.state; let mut guard = 0;
+            while st != 0 && guard < 200 { guard += 1;
+                match w.events.get(&(st - 1)) { Some(ci) => {
+                    if ci.ckind.starts_with("rv") && ci.removes.contains(&m) { run.oracle_fail("C03", "", format!("[{backend}] member {m} read message event {ev}, sent at state {} after commit {} removed it", i.state, st - 1), seqtxt()); break; }
+                    st = ci.state; } None => break }
+            }
+        } }
         // C03: content is stored only by clients that were in the state the message was sent in
         if let Some(i) = &info { if i.kind == "app" && fp.starts_with("res=App") && i.author != m && !truth.visited[m].contains(&i.state) {
             run.oracle_fail("C03", "", format!("[{backend}] member {m} obtained message event {ev} sent at state {} which it was never in", i.state), seqtxt());
@@ -257,7 +330,8 @@ fn step<S: MdkStorageProvider>(w: &mut World<S>, l: &str, truth: &mut Truth, run
         // pending commit (possibly one that a rollback had just restored together with the snapshot)
         if t[1] == "DELIVER" && fp.starts_with("res=Commit") {
             let ev: u64 = t[3].parse().unwrap();
-            if w.events.get(&ev).map(|i| i.kind == "commit" && i.author == m && st != ev + 1).unwrap_or(false) { truth.own_echo_other_pending = true; }
+            let changed = before.as_ref().map(|b| strip(&fp) != *b).unwrap_or(false) || w.clients[m].cb.0.lock().unwrap().len() > rb_before;
+            if changed && w.events.get(&ev).map(|i| i.kind == "commit" && i.author == m && st != ev + 1).unwrap_or(false) { truth.own_echo_other_pending = true; }
         }
     }
     // C07: re-delivering an event that has already taken effect here changes nothing observable
@@ -265,7 +339,7 @@ fn step<S: MdkStorageProvider>(w: &mut World<S>, l: &str, truth: &mut Truth, run
         let ev: u64 = t[3].parse().unwrap();
         if truth.took_effect.contains(&(m, ev)) && fp != "skip" && strip(&fp) != *b {
             let is_prop = w.events.get(&ev).map(|i| i.kind == "prop").unwrap_or(false);
-            let cls = if is_prop { "late-proposal-treated-as-mip03-candidate" } else if truth.own_echo_other_pending { "own-echo-merges-a-different-pending-commit" } else { "" };
+            let cls = if is_prop { "late-proposal-treated-as-mip03-candidate" } else if pending_before == Some(ev) { "rollback-resurrects-superseded-pending-commit" } else if truth.own_echo_other_pending { "own-echo-merges-a-different-pending-commit" } else { "" };
             run.oracle_fail("C07", cls, format!("[{backend}] re-delivering event {ev}, which had already taken effect at member {m}, changed its state: {b} -> {}", strip(&fp)), seq.join(" || ") + " || " + &line);
         }
         if ["res=App", "res=Commit", "res=PendingProposal", "res=AutoCommit"].iter().any(|k| fp.starts_with(k)) { truth.took_effect.insert((m, ev)); }
@@ -385,6 +459,7 @@ fn oracles<S: MdkStorageProvider>(run: &mut Run, w: &mut World<S>, seq: &mut Vec
 }
 
 fn main() {
+    if std::env::var("VERIF_SHOW_ERR").is_ok() { mdk_verif_harness::logcap::install(); }
     if std::env::var("VERIF_SHOW_PANIC").is_err() { std::panic::set_hook(Box::new(|_| {})); }
     let backend = arg("--backend").unwrap_or("mem".into());
     let out = arg("--out").unwrap_or(format!("/verif/.cache/run/proto-{backend}"));
@@ -404,7 +479,7 @@ fn main() {
         let (b1, w1) = (base.clone(), wn.clone());
         let mk = move |i: usize| MdkSqliteStorage::new_unencrypted(b1.join(format!("w{}_c{}.db", w1.get(), i))).unwrap();
         let b2 = base.clone();
-        let factory: Box<dyn Fn(u64) -> Box<dyn Fn(usize) -> MdkSqliteStorage>> = Box::new(move |h: u64| { let b = b2.clone(); Box::new(move |i: usize| MdkSqliteStorage::new_unencrypted(b.join(format!("w{}_c{}.db", 1000 + h, i))).unwrap()) });
+        let factory: Box<dyn Fn(u64) -> Box<dyn Fn(usize) -> MdkSqliteStorage>> = Box::new(move |h: u64| { let b = b2.clone(); Box::new(move |i: usize| MdkSqliteStorage::new_unencrypted(b.join(format!("w{}_c{}.db", h.wrapping_add(1000), i))).unwrap()) });
         run_world(&mut run, lines, &mut r, nhist, steps, mk, "sqlite", Some(factory), &wn);
     }
     run.finish();
